@@ -224,6 +224,30 @@ SComplete(t) ==
           /\ UNCHANGED <<fsp, ctxof, lazy>>
           /\ SLog([op |-> "complete", t |-> t, k |-> Top(cx, t).k, i |-> i])
 
+\* A real panic! in the innermost body on thread t (a sync span body, an async span's poll, a
+\* plain frame), caught below everything t has entered: every guard is dropped innermost
+\* first, so every enabled span on the way completes inside its own frame (level and error of
+\* that record are C05's business) and then its frame is left.
+RECURSIVE UnwindRecs(_, _)
+UnwindRecs(c, t) ==
+    IF c.stk[t] = <<>> THEN <<>>
+    ELSE LET e == Top(c, t)
+             i == fsp[e.f]
+             rec == IF i # 0 /\ sp[i].en
+                    THEN <<[kind |-> "span", ids |-> c.act[t][1], a |-> ctxof[e.f], i |-> i]>> ELSE <<>>
+         IN rec \o UnwindRecs(CxPop(c, t, IF e.form = "guard" THEN "guard" ELSE "dead"), t)
+
+SpansOnStack(t) == {fsp[cx.stk[t][n].f] : n \in 1..Len(cx.stk[t])} \ {0}
+
+SPanic(t) ==
+    /\ Panics
+    /\ cx.stk[t] # <<>>
+    /\ em' = UnwindRecs(cx, t)
+    /\ cx' = CxUnwind(cx, t)
+    /\ sp' = [i \in Spans |-> IF i \in SpansOnStack(t) THEN [sp[i] EXCEPT !.st = "done"] ELSE sp[i]]
+    /\ UNCHANGED <<fsp, ctxof, lazy>>
+    /\ SLog([op |-> "panic", t |-> t])
+
 \* emit!(...) on thread t
 Event(t) ==
     /\ em' = <<Rec("event", t, 0)>>
@@ -269,6 +293,7 @@ SNext ==
     \/ \E t \in Threads : SYield(t)
     \/ \E t \in Threads : SComplete(t)
     \/ \E t \in Threads : Event(t)
+    \/ \E t \in Threads : SPanic(t)
     \/ \E t \in Threads, kind \in IncomingKinds : Incoming(t, kind)
     \/ \E t \in Threads : Current(t)
 
